@@ -22,6 +22,10 @@ def nontrivial(line, rec):
 
 
 def run(ctx):
+    import clilib as _cl
+    _cl.stream(ctx, "cligraphout", gen.cligraphout_lines(ctx.rng.fork("cligraphout"), 500 if ctx.quick else 12000, 0),
+               "cmr-graphic [-t] -G: the written graph file, parsed by the Coq edge-list grammar, is a certificate for the matrix parsed from the input bytes",
+               lambda c: gen.CLIGRAPHOUT_CODES.get(c, str(c)))
     import clilib
     clilib.stream(ctx, "cliverdict", gen.cliverdict_lines(ctx.rng.fork("cliverdict"), 2, 2, 400 if ctx.quick else 8000, (0, 1), 4, 4, 16, False),
                   "cmr-graphic [-t]: verdict line vs. the definition-level oracle on the matrix parsed from the input bytes",
